@@ -2,6 +2,7 @@ import Momo.Proof.LedgerObj
 import Momo.Proof.LedgerPool
 import Momo.Proof.LedgerVal
 import Momo.Props.C09
+import Momo.Proof.HTLedgerCons
 /-!
 # C03 — Every byte and every element is released exactly once, never touched after
 
@@ -270,3 +271,149 @@ example : FreshMallocs [] [Pool.Ev.malloc 4096 264, .malloc 8192 264, .free 4096
   simp [FreshMallocs]
 
 end Momo.Ledger
+
+/-!
+# C03 for the hash family: `momo::HashSet` / `momo::HashMap` (model `Momo/Model/HTLedger.lean`)
+
+The ledger layer over the hash-table model of C01 / C11: every operation of HashSet.h emits, in program order, the calls it
+makes to the memory manager (bucket array of every generation, `BucketParams` block, crew block, pool buffers of the chained
+bucket kinds) and the life-cycle events of its element objects (construction by the item creator, `ObjectRelocator::Relocate`
+by category, `ObjectManager::Replace` / `ReplaceRelocate`, copies and their roll-back, destruction), under an explicit fault
+record per operation (`Flt`: throwing hash / equality functor, refused bucket array / `BucketParams` / crew block, throwing
+creator or copy, throwing assignment, the migration `pvRelocateItems` interrupted after ANY number of items with any number of
+generations alive, a copy construction failing after any number of items) and arbitrary pool traffic (`PoolT`). The system
+`Sys` is what the correspondence harness drives: two containers A and B and a node handle.
+
+Quantifiers of this section: EVERY configuration `cfg` - every bucket description `cfg.sp` (no `SpecOK` needed for the ledger
+theorems), relocation category, sizes, manager class -, every hash function `hf`, every history `ops : List OpT`, every fault
+record and pool traffic inside it. Lemmas: `Momo/Proof/HTLedger*.lean`.
+-/
+namespace Momo.HTL
+open Momo Momo.HT Momo.Ledger
+
+/-- **C03, hash containers, every history under every fault schedule: the event list is disciplined and the ledger is exactly
+what the containers own.** "Across any history of operations …, including operations that exit with an exception, every block
+obtained from the … memory manager is given back exactly once, with the size it was requested with, through the same or an equal
+manager … Every element object that is constructed is destroyed exactly once and is never used after destruction or
+relocation." The verified monitor `Ledger.run` accepts the complete event list of the history (so by `C03_monitor_sound` it is
+`Disciplined`: each `dealloc` answers an outstanding `alloc` of that block with the same size and manager class, nothing is
+constructed over a live object, destroyed / used / relocated when not alive), and AT EVERY MOMENT what the monitor holds is
+exactly what the books of A, B and the handle list - bucket arrays, `BucketParams`, crew blocks, pool buffers; one element object
+per stored or extracted item: no leak while alive. -/
+theorem C03_hash_history_ledger (cfg : Cfg) (hf : Nat → Nat) (ops : List OpT) :
+    ∃ s, Ledger.run Ledger.St.init (run cfg hf (Sys.init cfg) ops).w.evs = some s ∧
+      Holds s ((run cfg hf (Sys.init cfg) ops).blocks cfg) (run cfg hf (Sys.init cfg) ops).elems ∧
+      Disciplined (run cfg hf (Sys.init cfg) ops).w.evs :=
+  let ⟨s, h1, h2⟩ := (run_ok cfg hf ops _ (sysOK_init cfg)).led.acc
+  ⟨s, h1, h2, disciplined_of_run h1⟩
+
+/-- **… and destruction leaves nothing.** "… no later than the container's destruction … destruction leave[s] zero outstanding
+blocks and zero live elements": after any history, once the handle, B and A are destroyed (`finish`: `~SetExtractedItem`,
+`~HashSet` = `pvDestroy` + `~SetCrew`), the monitor's verdict on the whole event list is "accepted and clean" - by
+`C03_balanced_iff` the list is disciplined and nothing is left; by `C03_block_released_once` / `C03_element_ended_once` every block
+was given back exactly once with its size through its manager class and every element object ended exactly once. -/
+theorem C03_hash_history_balanced (cfg : Cfg) (hf : Nat → Nat) (ops : List OpT) :
+    Ledger.balanced (finish cfg (run cfg hf (Sys.init cfg) ops)).evs = true :=
+  led_nil_balanced (finish_clean cfg _ (run_ok cfg hf ops _ (sysOK_init cfg)))
+
+/-- **Clear with shrink leaves zero outstanding blocks and zero live elements** (of that container, besides the crew block that a
+live container keeps until its destruction): after `Clear(true)` in any reachable state the books of A list no bucket array, no
+`BucketParams`, no pool buffer and no element object - and the monitor holds exactly the books (`C03_hash_history_ledger`), so
+everything else of A has been given back / destroyed. -/
+theorem C03_hash_clear_shrink (cfg : Cfg) (hf : Nat → Nat) (ops : List OpT) :
+    let s := run cfg hf (Sys.init cfg) (ops ++ [{ op := .clear true }])
+    s.a.blocks cfg = (optL s.a.crew).map (fun b => (b, cfg.mgr, cfg.csz)) ∧ s.a.elems = [] ∧ s.a.t.gens = [] := by
+  have hrun : ∀ (l1 l2 : List OpT) (s : Sys), run cfg hf s (l1 ++ l2) = run cfg hf (run cfg hf s l1) l2 := by
+    intro l1; induction l1 with
+    | nil => intro l2 s; rfl
+    | cons o r ih => intro l2 s; exact ih l2 _
+  simp only [hrun, run]
+  generalize hs : run cfg hf (Sys.init cfg) ops = s0
+  have h0 : SysOK cfg s0 := by rw [← hs]; exact run_ok cfg hf ops _ (sysOK_init cfg)
+  have hp : ∀ st : St, st.params = none → ∀ (p : PoolT) (w : W), poolTraffic cfg st p w = (st, w) := by
+    intro st hpn p w; simp [poolTraffic, hpn]
+  have key : (clearL cfg s0.a true s0.w).1.params = none ∧ (clearL cfg s0.a true s0.w).1.arrs = [] ∧
+      (clearL cfg s0.a true s0.w).1.bufs = [] ∧ (clearL cfg s0.a true s0.w).1.els = [] ∧
+      (clearL cfg s0.a true s0.w).1.t.gens = [] := by
+    unfold clearL
+    cases harr : s0.a.arrs with
+    | nil =>
+      obtain ⟨p1, p2, p3⟩ := h0.a.nil harr
+      exact ⟨p1, harr, p2, p3, List.eq_nil_of_length_eq_zero (by rw [← h0.a.len, harr]; rfl)⟩
+    | cons a older =>
+      have hg : s0.a.t.gens ≠ [] := by intro hc; have := h0.a.len; rw [harr, hc] at this; simp at this
+      simp only [if_true]
+      refine ⟨trivial, trivial, trivial, trivial, ?_⟩
+      cases hgs : s0.a.t.gens with
+      | nil => exact absurd hgs hg
+      | cons g rest => simp [clear, hgs, emptyTable]
+  obtain ⟨k1, k2, k3, k4, k5⟩ := key
+  simp only [stepT, step]
+  rw [hp _ k1]
+  simp only [St.blocks_eq, St.elems, k1, k2, k3, k4, k5, optL, List.map_nil, List.append_nil]
+  exact ⟨trivial, trivial, trivial⟩
+
+/-- **The books are the table** (`Consistent`, for both containers, in every reachable state): the table of the ledger layer is
+the C01 / C11 table and satisfies their invariant `TableInv` (so every theorem of Props/C01.lean, Props/C11.lean applies: each key
+found, traversed once, removable in every generation); the books hold exactly one element object per stored item - the same
+keys -, exactly one bucket-array block of `pvGetBufferSize(logCount)` bytes per generation in the same order, and the
+`BucketParams` block iff a table exists; hence the number of live element objects is the container's count. Together with
+`C03_hash_history_ledger`: at every moment the monitor holds exactly what the TABLE STATE owns. Hypotheses: `SpecOK` (every bucket
+kind of the library, `mkSpec_ok`) and `RunFits` - the side condition of the hash-table model's copy constructor that C01's own
+history theorem carries (`C01_copy_fits`: it holds whenever the count does not exceed the capacity of `2^(logStart+63)` buckets). -/
+theorem C03_hash_books_are_table (cfg : Cfg) (hf : Nat → Nat) (ok : SpecOK cfg.sp) (ops : List OpT)
+    (hfit : RunFits cfg hf (Sys.init cfg) ops) :
+    Consistent cfg hf (run cfg hf (Sys.init cfg) ops).a ∧ Consistent cfg hf (run cfg hf (Sys.init cfg) ops).b ∧
+    (run cfg hf (Sys.init cfg) ops).a.elems.length = (run cfg hf (Sys.init cfg) ops).a.t.count ∧
+    (run cfg hf (Sys.init cfg) ops).b.elems.length = (run cfg hf (Sys.init cfg) ops).b.t.count :=
+  let ⟨ha, hb⟩ := run_cons cfg hf ok ops _ (sysCons_init cfg hf) hfit
+  ⟨ha, hb, ha.count, hb.count⟩
+
+/-! Non-vacuity: a LimP4-like table of copy-only items (the migration can be interrupted) whose history leaves THREE
+generations alive (the migrations of two insertions and of a `Reserve` stopped after 0, 0 and 1 items), with a refused
+bucket array, a throwing creator and a throwing hash functor on the way; a copy assignment failing after two items; an
+extraction; then destruction. -/
+def exCfg : Cfg :=
+  { sp := { maxCount := 4, quad := false, fullFrom := 4, unlimited := false, bound := .none, cap := .base, baseShift := true,
+            logStart := 1, nothrowReloc := false },
+    cat := .copyOnly, assign := false,
+    hdr := 24, bsz := 16, psz := 384, csz := 16, chained := true }
+def exOps : List OpT :=
+  [{ op := .ins false 1 10 {} }, { op := .ins false 2 20 {} }, { op := .ins false 3 30 { grow := true } },
+   { op := .ins false 4 40 { create := true } }, { op := .ins false 4 40 {}, pa := { gets := [414] } },
+   { op := .ins false 5 50 { mig := some 0 } }, { op := .ins false 6 60 { hashThrows := true } },
+   { op := .ins false 6 60 { mig := some 0 } }, { op := .reserve 100 { mig := some 1 } },
+   { op := .copyTo { copyStop := some 2 } }, { op := .ext 2 {} }, { op := .rem 5 { assignThrows := true } }]
+
+/-- three generations: 64, 8 and 2 buckets, holding 1, 2 and 2 items (one was extracted into the handle) -/
+example : (run exCfg id (Sys.init exCfg) exOps).a.t.gens.map (fun g => (g.L, genCount g)) = [(6, 1), (3, 2), (1, 2)] := by decide
+/-- the books of A: crew, `BucketParams`, three bucket arrays of 24 + 16·2^L bytes, one pool buffer -/
+example : ((run exCfg id (Sys.init exCfg) exOps).a.blocks exCfg).map (·.2.2) = [16, 384, 1048, 152, 56, 414] := by decide +kernel
+/-- five element objects in A, none in B (the copy failed), one in the handle -/
+example : ((run exCfg id (Sys.init exCfg) exOps).a.elems.length, (run exCfg id (Sys.init exCfg) exOps).b.elems.length,
+    (run exCfg id (Sys.init exCfg) exOps).h.isSome) = (5, 0, true) := by decide
+/-- the monitor has accepted all events of this history and holds the 7 blocks and 6 element objects of the books … -/
+example : (Ledger.run Ledger.St.init (run exCfg id (Sys.init exCfg) exOps).w.evs).map (fun s => s.outstanding) = some (7, 6) := by
+  decide
+/-- … and after destruction nothing (`C03_hash_history_balanced`, here by evaluation) -/
+example : Ledger.balanced (finish exCfg (run exCfg id (Sys.init exCfg) exOps)).evs = true := by decide
+/-- the monitor is not vacuous on such traces: dropping the last event (the crew block of A is not given back) is a leak -/
+example : Ledger.balanced (finish exCfg (run exCfg id (Sys.init exCfg) exOps)).evs.dropLast = false := by decide
+example : RunFits exCfg id (Sys.init exCfg) exOps := by
+  simp only [exOps, RunFits, OpFits, and_true, true_and]
+  decide +kernel
+
+theorem exCfg_ok : SpecOK exCfg.sp where
+  maxPos := by decide
+  fullLe := fun _ => by decide
+  zeroUnl := fun h => by cases h
+  capLe := fun _ L => by
+    show 2 ^ L * 2 ≤ 2 ^ L * 4
+    exact Nat.mul_le_mul_left _ (by decide)
+/-- … so the three-generation state satisfies the invariant of C01 / C11 and its books are its table -/
+example : Consistent exCfg id (run exCfg id (Sys.init exCfg) exOps).a :=
+  (C03_hash_books_are_table exCfg id exCfg_ok exOps (by
+    simp only [exOps, RunFits, OpFits, and_true, true_and]
+    decide +kernel)).1
+
+end Momo.HTL
